@@ -143,8 +143,14 @@ static bool operator<=(const KeyRef& a, const KeyRef& b){ for(int d = 0; d < DIM
 
 static void choosePositions(const Cfg& cfg, bool symmetric, bool symbolicPayload = true){
     for(long p = 0; p < NPART; ++p){
+#if POSMODE == 4
+        // dense placement: particle p sits at the centre of the p-th leaf (row-major over the grid): full sibling sets, no forking
+        { long q = p; for(int d = 0; d < DIM; ++d){ gP.k[p][d] = 2 * (q % Side) + 1; q /= Side; } }
+        (void)symmetric;
+#else
         for(int d = 0; d < DIM; ++d) gP.k[p][d] = chooseK();
         if(symmetric && p > 0) irsym_assume(keyOf(gP.k[p - 1]) <= keyOf(gP.k[p]));
+#endif
         for(int d = 0; d < DIM; ++d){
             gP.pos[p][d] = ContT(cfg.getBoxCorner()[d] + Real(gP.k[p][d]) * (cfg.getLeafWidths()[d] / Real(2)));
             irsym_note(100 * (p + 1) + d, gP.k[p][d]);
